@@ -68,6 +68,9 @@ CHECKS = {
  'C13': dict(cat='proof', tech='deductive: pre@close obligations (close only while in_flight == |orphans|, decided and executed under connection.lock) on the real HostConnection._replace / return_connection / borrow_connection',
              text='For every in-flight count and orphan count of the old connection: it is closed iff only orphaned streams remain, under its lock; otherwise trashed and closed by the return that leaves only orphans (also an orphaning return); borrowers move to the fresh connection.',
              ref='DESIGN.md §4 C13'),
+ 'C20': dict(cat='proof', tech='deductive: ghost callback counters and lock-discipline obligations on the real Session._set_keyspace_for_all_pools, HostConnection/HostConnectionPool._set_keyspace_for_all_conns, Connection.set_keyspace_async, ResponseFuture._set_keyspace_completed, pool constructors',
+             text='Exactly-once completion with the union of all errors is proved for up to 3 pools / 2 legacy connections under every completion order and outcome combination (enumerated); the keyspace is remembered for connections opened later, including pools that had no connection during the switch.',
+             ref='DESIGN.md §4 C20'),
 }
 
 NA_REASON = {}
